@@ -46,6 +46,7 @@ let parse_event toks : op option =
   | ["C"; h] -> Some (OpCopy (n h))
   | ["M"; h] -> Some (OpMove (n h))
   | ["T"; h] -> Some (OpElem (n h))
+  | ["Z"; h] -> Some (OpSoccFail (n h))
   | ["Q"; a; b] -> Some (OpQuery (n a, n b))
   | ["F"; h; cnt; grow] -> Some (OpAllocFail (n h, z_of_string cnt, n grow))
   | ["R"; h; vs; va] -> Some (OpRebind (n h, { vsize = z_of_string vs; valign = z_of_string va }))
@@ -101,7 +102,7 @@ let () = iter_lines (fun line ->
     | Some o ->
       let pr = proto_ok !cfg !st o in
       let hk = (match o with OpAllocFail (h, cnt, _) -> h_ok !cfg !st (OpAlloc (h, cnt, O)) | _ -> h_ok !cfg !st o) in
-      let is_fail = (match o with OpAllocFail _ -> true | _ -> false) in
+      let is_fail = (match o with OpAllocFail _ | OpSoccFail _ -> true | _ -> false) in
       let query = (match o with OpQuery (a, b) -> Some (alloc_eq !st a b) | _ -> None) in
       (match step !cfg !st o with
        | Ok (st', ob) ->
